@@ -88,6 +88,10 @@ def check_direction(msgs, status, peer_msgs, name='?'):
                 if cur['total'] is not None and cur['total'] != cur['sum']:
                     problems.append('%s: transfer %d announced %d octets, segments carry %d' % (name, cur['id'], cur['total'], cur['sum']))
                 cur = None
+            elif cur['total'] is not None and cur['sum'] >= cur['total']:
+                # "only the last segment carries END": the segment that completes the announced length IS the last one
+                problems.append('%s: segment completing the announced %d octets of transfer %d carries no END (segments so far carry %d)'
+                                % (name, cur['total'], cur['id'], cur['sum']))
     # ACK echo: k-th ACK here answers the k-th segment of the peer
     peer_segments = [msg for msg in peer_msgs if msg['type'] == 'XFER_SEGMENT']
     my_acks = [msg for msg in msgs if msg['type'] == 'XFER_ACK']
